@@ -7,7 +7,7 @@ cd "$WT" || exit 2
 git checkout -q -- . ; 
 [ -f _build/build.ninja ] || cmake -G Ninja -S "$WT" -B "$WT/_build" -DCMAKE_BUILD_TYPE=RelWithDebInfo -DCMAKE_CXX_FLAGS=-Wno-error >/dev/null 2>&1
 cmake --build _build -j12 >/dev/null 2>&1 || { echo "CONFIRM $SD: clean build failed"; exit 2; }
-compile() { g++ -std=c++14 -O1 -DNDEBUG -I"$WT/include" -I"$WT/src" -I"$SD" "$SD/demo.cc" "$WT/_build/src/libvata.a" -o "$1" 2>/tmp/cf_$$_confirm_cc.log; }
+compile() { g++ -std=c++14 -O1 -DNDEBUG -DVATA_VERIF -I"$WT/include" -I"$WT/src" -I"$SD" "$SD/demo.cc" "$WT/_build/src/libvata.a" -o "$1" 2>/tmp/cf_$$_confirm_cc.log; }
 runtests() { ( cd "$WT/_build/unit_tests" && for t in ondriks_mtbdd_c_test timbuk_parser_test bdd_bu_tree_aut_test bdd_td_tree_aut_test explicit_tree_aut_test; do
       r=$(timeout 900 ./$t 2>&1 | grep -o "\*\*\* [0-9]* failure\|No errors detected" | head -1); echo "$t:$r"; done ) | tr '\n' ' '; }
 compile /tmp/cf_$$_confirm_demo_clean || { echo "CONFIRM $SD: demo does not compile"; cat /tmp/cf_$$_confirm_cc.log | head; exit 2; }
